@@ -124,6 +124,8 @@ const STARVE_CASES: u64 = 2;
 const EOF_CASES: u64 = 2;
 /// one switch to the decoder inside a callback: every stream.* sync point of the audio thread x decoder run length
 const MIDCB_CASES: u64 = 4;
+/// an audio callback placed inside one decoder loop iteration (the decoder parked at its n-th sync point)
+const MIDIT_CASES: u64 = 1;
 
 impl Check for C10 {
 	fn id(&self) -> &'static str {
@@ -133,12 +135,14 @@ impl Check for C10 {
 		Level::FaultEnumeration
 	}
 	fn num_cases(&self, _tier: Tier) -> u64 {
-		scenarios().len() as u64 + E2_CASES + STARVE_CASES + EOF_CASES + MIDCB_CASES
+		scenarios().len() as u64 + E2_CASES + STARVE_CASES + EOF_CASES + MIDCB_CASES + MIDIT_CASES
 	}
 	fn describe(&self, _tier: Tier, idx: u64) -> String {
 		let sc = scenarios();
 		if (idx as usize) < sc.len() {
 			format!("{:?}", sc[idx as usize])
+		} else if idx >= sc.len() as u64 + E2_CASES + STARVE_CASES + EOF_CASES + MIDCB_CASES {
+			"one audio callback inside a decoder loop iteration: 6-frame finite stream, the decoder has delivered 3..6 frames and the ring is drained; the decoder is parked at its n-th stream.* sync point (every n over the next three iterations), one callback runs, the decoder goes on".to_string()
 		} else if idx >= sc.len() as u64 + E2_CASES + STARVE_CASES + EOF_CASES {
 			let w = idx - sc.len() as u64 - E2_CASES - STARVE_CASES - EOF_CASES;
 			format!("one decoder burst inside a callback: 12-frame {} stream, internal buffer 4, decoder {} frames ahead when the callback begins; at the n-th pass of the audio thread through a stream.* sync point (every n) the decoder runs k iterations (k = 1..14)", if w % 2 == 0 { "finite" } else { "looping" }, if w / 2 == 0 { 3 } else { 6 })
@@ -155,6 +159,8 @@ impl Check for C10 {
 		if (idx as usize) < sc.len() {
 			let s = sc[idx as usize];
 			format!("event {:?} place {:?}", s.event, s.place)
+		} else if idx >= sc.len() as u64 + E2_CASES + STARVE_CASES + EOF_CASES + MIDCB_CASES {
+			"callback inside a decoder iteration".to_string()
 		} else if idx >= sc.len() as u64 + E2_CASES + STARVE_CASES + EOF_CASES {
 			"decoder burst inside a callback".to_string()
 		} else if idx >= sc.len() as u64 + E2_CASES + STARVE_CASES {
@@ -188,6 +194,11 @@ impl Check for C10 {
 			ctx.evals += 1;
 			if let Err(p) = catch(|| run(&s, ctx)) {
 				ctx.fail(format!("panic: {} :: {:?}", p, s.event), format!("{:?}", s));
+			}
+		} else if idx >= sc.len() as u64 + E2_CASES + STARVE_CASES + EOF_CASES + MIDCB_CASES {
+			pacer::set_mode(pacer::Mode::Pacer);
+			if let Err(p) = catch(|| mid_iteration(ctx)) {
+				ctx.fail(format!("panic: {} :: callback inside a decoder iteration", p), "");
 			}
 		} else if idx >= sc.len() as u64 + E2_CASES + STARVE_CASES + EOF_CASES {
 			pacer::set_mode(pacer::Mode::Pacer);
@@ -1181,4 +1192,118 @@ fn mid_callback(looping: bool, ahead: u64, ctx: &mut Ctx) {
 	}
 	ctx.count(&format!("midcb_sync_points_in_the_observed_callback[looping={} ahead={}]", looping, ahead), n_points);
 	ctx.outcome(hash64(&("midcb", looping, ahead)));
+}
+
+// ---------------------------------------------------------------------------------------------
+// the mirror image of the burst family: the DECODER is stopped in the middle of a loop iteration (at its n-th sync point)
+// and one audio callback runs there. Together the two families are the preemption-bound-1 slice of decoder x audio.
+
+fn mid_iteration(ctx: &mut Ctx) {
+	const N: usize = 6;
+	let codes: Vec<f32> = (0..N).map(|i| (1 + (i * 5) % 7) as f32 / 16.0).collect();
+	let ibs = 2usize;
+	for pre in 3..=N as u64 {
+		for drained in [true, false] {
+			let mut nth = 0u64;
+			loop {
+				nth += 1;
+				ctx.evals += 1;
+				let mut m = rig::manager(SR, ibs, rig::caps(2), MainTrackBuilder::new());
+				let first = pacer::count();
+				let frames: Vec<Frame> = codes.iter().map(|c| Frame::new(*c, -*c / 2.0)).collect();
+				let (dec, stats) = ScriptedDecoder::new(frames, SR, vec![2, 1, 3], 1);
+				let mut h = m.play(StreamingSoundData::from_decoder(dec)).map_err(|_| ()).expect("play");
+				let mut buf = vec![0.0f32; ibs * 2];
+				let mut heard: Vec<f32> = vec![];
+				let mut states: Vec<String> = vec![];
+				pacer::step(first, pre);
+				let ncb = if drained { pre as usize / ibs + 2 } else { 1 };
+				for _ in 0..ncb {
+					rig::callback(&mut m, &mut buf, ibs, 2);
+					heard.extend([buf[0], buf[2]]);
+					states.push(format!("{:?}", h.state()));
+				}
+				// the decoder goes on and is parked inside an iteration; one callback runs there
+				pacer::arm_decoder_park(first, nth);
+				pacer::step(first, 3);
+				let rep = rig::callback(&mut m, &mut buf, ibs, 2);
+				heard.extend([buf[0], buf[2]]);
+				states.push(format!("{:?}", h.state()));
+				let (site, _seen) = pacer::release_decoder_park(first);
+				let fired = site.is_some();
+				let desc = || format!("6-frame stream (frame i = (1 + 5i mod 7)/16), internal buffer 2; the decoder delivers {} frames, {}; then it is parked at its pass #{} through a stream.* sync point ({}) while one callback runs; then it keeps ahead", pre, if drained { "the ring is played dry" } else { "one callback" }, nth, site.unwrap_or("-"));
+				let mut bad: Option<(String, String)> = None;
+				if !rep.ok() {
+					bad = Some(("the callback monitor reports".into(), format!("{:?}", rep)));
+				}
+				for _ in 0..6 {
+					pacer::step(first, 4);
+					let rep = rig::callback(&mut m, &mut buf, ibs, 2);
+					if !rep.ok() && bad.is_none() {
+						bad = Some(("the callback monitor reports".into(), format!("{:?}", rep)));
+					}
+					heard.extend([buf[0], buf[2]]);
+					states.push(format!("{:?}", h.state()));
+				}
+				if bad.is_none() && fired {
+					let idx_of = |v: f32| codes.iter().position(|c| *c == v);
+					let mut last: Option<usize> = None;
+					let mut gap = false;
+					for (j, v) in heard.iter().enumerate() {
+						if *v == 0.0 {
+							gap = true;
+							continue;
+						}
+						match idx_of(*v) {
+							None => {
+								bad = Some(("a frame that is not in the source is heard".into(), format!("output frame {} = {}", j, v)));
+								break;
+							}
+							Some(i) => {
+								if let Some(l) = last {
+									if !(i == l + 1 || (gap && i == l + 2)) {
+										let kind = if i <= l { "frames are repeated or reordered".to_string() } else { format!("{} source frames are lost in one gap (the statement allows one)", i - l - 1) };
+										bad = Some((kind, format!("output frame {}: source frame {} after source frame {}", j, i, l)));
+										break;
+									}
+								}
+								last = Some(i);
+								gap = false;
+							}
+						}
+					}
+					// the last frame may be the one frame a gap costs (a frame that arrives after the ring ran dry takes the history slot),
+					// but only if the sound really waited (silent while still Playing) after the last frame that was heard
+					if bad.is_none() && last != Some(N - 1) {
+						let j_last = heard.iter().rposition(|v| *v != 0.0).unwrap_or(0);
+						let waited = states.iter().enumerate().any(|(c, st)| st != "Stopped" && (c * ibs..(c + 1) * ibs).any(|j| j > j_last && heard.get(j) == Some(&0.0)));
+						if last.map(|l| l + 2 < N).unwrap_or(true) || !waited {
+							bad = Some(("the stream is reported finished before its last frame was played".into(), format!("last source frame heard {:?}, it never waited for the decoder after that; states {:?}", last, states)));
+						}
+					}
+					if bad.is_none() && h.state() != PlaybackState::Stopped {
+						bad = Some(("the sound is not Stopped long after its last frame".into(), format!("state {:?}", h.state())));
+					}
+				}
+				if let Some((kind, b)) = bad {
+					ctx.fail(
+						format!("an audio callback inside a decoder loop iteration causes more than a gap of silence: {} :: callback inside a decoder iteration", kind),
+						format!("{}; {}; heard (x16) {:?}", desc(), b, heard.iter().map(|v| (v * 16.0) as i32).collect::<Vec<_>>()),
+					);
+				}
+				if fired {
+					ctx.nontrivial_extra += 1;
+					ctx.state(hash64(&("midit", pre, drained, nth)));
+				}
+				h.stop(tw(0.0, SR));
+				rig::callback(&mut m, &mut buf, ibs, 2);
+				drop(m);
+				crate::probes::reap_decoder(first, &stats);
+				if !fired || nth > 40 {
+					break;
+				}
+			}
+		}
+	}
+	ctx.outcome(hash64(&"midit"));
 }
